@@ -291,6 +291,17 @@ func (s *Solvers) dischargeOne(o *Obligation) {
 		}
 		return
 	}
+	if o.quickOnly {
+		// Houdini candidates: an undecided candidate is simply dropped
+		r, _ := s.runWith(o.Name, script, 3*time.Second, 1)
+		o.Backend, o.Time = r.backend, r.secs
+		if r.status == "unsat" {
+			o.Status = "discharged"
+		} else {
+			o.Status = "unknown"
+		}
+		return
+	}
 	r, all := s.run(o.Name, script, true)
 	o.Backend = r.backend
 	o.Time = r.secs
